@@ -2,6 +2,11 @@
 
 package core
 
+import (
+	"bufio"
+	"bytes"
+)
+
 // Add-only exports for the verification harness (built only with -tags verif).
 
 // VerifParseEntry exposes (*XRefParser).parseEntry: one line of a classic
@@ -14,4 +19,16 @@ func VerifParseEntry(line string) (*XRefEntry, error) {
 // entry of a cross-reference stream with field widths w.
 func VerifParseXRefStreamEntry(data []byte, w []int) (*XRefEntry, int, error) {
 	return (&XRefParser{}).parseXRefStreamEntry(data, w)
+}
+
+// VerifScanLines runs a bufio.Scanner with scanPDFLines (the line splitter of the
+// cross-reference table parser) over data: the lines delivered and the scanner's error.
+func VerifScanLines(data []byte) ([][]byte, error) {
+	sc := bufio.NewScanner(bytes.NewReader(data))
+	sc.Split(scanPDFLines)
+	var lines [][]byte
+	for sc.Scan() {
+		lines = append(lines, append([]byte(nil), sc.Bytes()...))
+	}
+	return lines, sc.Err()
 }
